@@ -17,6 +17,8 @@ def cfg_with_known(wd, template, name):
     ids = known_ids()
     txt = open(os.path.join(common.SPEC, template)).read()
     txt = re.sub(r"Known = \{[^}]*\}", "Known = {%s}" % ", ".join('"%s"' % i for i in ids), txt)
+    if os.environ.get("VERIF_C10_DEEP") and "MaxN = 5" in txt:
+        txt = txt.replace("MaxN = 5", "MaxN = 6")
     p = os.path.join(wd, name)          # in the run's own work directory: concurrent runs must not share it
     open(p, "w").write(txt)
     return p
@@ -74,6 +76,8 @@ def run(tier):
     rnd = random.Random(common.seed())
     common.build("plain")
     wd = common.workdir("c10")
+    if tier == "thorough":
+        os.environ["VERIF_C10_DEEP"] = "1"
     cfg = cfg_with_known(wd, "MC_RangeImpl.cfg", "MC_RangeImpl_run.cfg")
     r = common.tlc("RangeImpl", cfg, workers=8, timeout=900)
     ck.require_ok("RangeImpl", r)
